@@ -17,10 +17,16 @@ import (
 	interp "verif/engine/internal/symexec"
 )
 
-const (
-	repoDir = "/repo"
-	repoMod = "github.com/openziti/storage"
-)
+const repoMod = "github.com/openziti/storage"
+
+// repoDir is /repo; VERIF_REPO points the machinery at another checkout (used
+// only to test the checks against seeded changes in a scratch worktree).
+var repoDir = func() string {
+	if d := os.Getenv("VERIF_REPO"); d != "" {
+		return d
+	}
+	return "/repo"
+}()
 
 // verifDir: the directory the check is run from (./check does cd there), so
 // that a snapshot of /verif uses its own harness files and evidence directory.
